@@ -494,6 +494,19 @@ package sql
 //@   at call QueryContext#1: assert same-statement: arg_ctx == ctx && arg_query == query && arg_args == args
 //@   may_panic
 
+// explicit transactions: the target driver is asked for exactly the transaction the caller asked for
+//@ func (*Conn).BeginTx
+//@   prop C16
+//@   inline
+//@   requires c != nil && c.txCtx != nil && c.targetConn != nil && ghost.dtx == 0
+//@   modifies c.autoCommit, ghost.dtx
+//@   let mode16 := c.txCtx.TransactionMode
+//@   ensures xa-opens-no-local-tx: mode16 == types.XAMode ==> ghost.dtx == 0 && !called("BeginTx#1") && !called("Begin#1")
+//@   ensures asks-the-target-once: mode16 != types.XAMode ==> (called("BeginTx#1") || called("Begin#1")) && !(called("BeginTx#1") && called("Begin#1"))
+//@   ensures begin-error-surfaces: called("BeginTx#1") && callres("BeginTx#1", 1) != nil ==> result1 == callres("BeginTx#1", 1) && result0 == nil
+//@   ensures wraps-the-targets-tx: called("BeginTx#1") && callres("BeginTx#1", 1) == nil && result1 == nil ==> isT(result0, *Tx) && result0.(*Tx).target == callres("BeginTx#1", 0)
+//@   at call BeginTx#1: assert callers-options-reach-the-driver: arg_ctx == ctx && arg_opts.Isolation == opts.Isolation && arg_opts.ReadOnly == opts.ReadOnly
+
 // prepared statements: the executor chain behind exec.SQLExecutor is the environment here; what the
 // proxy hands to it, and what the closure it passes does with the target statement, is checked.
 //@ iface (exec.SQLExecutor).ExecWithNamedValue
